@@ -133,6 +133,11 @@ class C07(PropertyCheck):
         for n in range(0, ml + 1):
             for m in itertools.product((BS, LN, NL, X), repeat=n):
                 cases.append(Case(render([("S", ka, m), ("G", ka), ("R", ka), ("G", ka)]), "all-messages"))
+        # carriage returns are ordinary characters: only backslash+n is rewritten (seeded change C07-8 folded CR LF into LF in set_message)
+        for n in range(1, ml + 1):
+            for m in itertools.product((BS, LN, NL, 13), repeat=n):
+                if 13 in m:
+                    cases.append(Case(render([("S", ka, m), ("G", ka), ("R", ka), ("G", ka)]), "all-messages-cr"))
         keys = [(), (97,), (97, 98), (98,), (0x3042,), (0x1F600,), (92, 110), (10,), (97, 0x301)]
         nh, maxlen = (120, 80) if tier == "quick" else (400, 300)
         for _ in range(nh):
@@ -142,7 +147,7 @@ class C07(PropertyCheck):
                 k = rng.choice(keys)
                 r = rng.random()
                 if r < 0.45:
-                    m = tuple(rng.choice((BS, LN, NL, X, BS, 0x3042, 0x1F600)) for _ in range(rng.randint(0, 8)))
+                    m = tuple(rng.choice((BS, LN, NL, X, BS, 0x3042, 0x1F600, 13)) for _ in range(rng.randint(0, 8)))
                     h.append(("S", k, m))
                 elif r < 0.65:
                     h.append(("D", k))
@@ -162,7 +167,7 @@ class C07(PropertyCheck):
         # "serialized order" (observe_at of the property): after a history, serialize -> from_bytes must list exactly the surviving
         # keys in order of first insertion with the last value set - also when several keys hold the SAME text (seeded change C07-3
         # pooled equal messages in serialize and lost the later key); few distinct messages on purpose
-        pool = [[], [97], [0x5C, 0x6E], [97, 98], [0x0A]]
+        pool = [[], [97], [0x5C, 0x6E], [97, 98], [0x0A], [13, 0x5C, 0x6E], [13, 10]]
         for _ in range(150 if tier == "quick" else 1500):
             f = "U" if rng.random() < 0.7 else "S"
             ks = rng.sample(c06.H_KEYS, rng.choice([2, 3, 5]))
@@ -171,8 +176,10 @@ class C07(PropertyCheck):
                 r, k = rng.random(), rng.choice(ks)
                 if r < 0.6:
                     ops.append(("S", k, rng.choice(pool)))
-                elif r < 0.85:
+                elif r < 0.80:
                     ops.append(("D", k))
+                elif r < 0.92:
+                    ops.append(("Z",))       # serialize in mid-history on the SAME object, image discarded (seeded change C07-7: stale memo after delete)
                 else:
                     ops.append(("T", [84]))
             cases.append(Case(c06.render_hist(f, rng.choice("LB"), ops), "serialized-order"))
